@@ -462,4 +462,43 @@ theorem world_trade_price_prescribed (w : World) (ins : List WIn) (id : Nat) (q 
   obtain ⟨deal, hdeal, hpos, htp⟩ := trade_price_prescribed _ _ _ _ _ _ _ _ _ _ _ _ _ hm
   exact ⟨ws, hws, auction, o, wi, d, deal, hid, hwi, hd, hdeal, hpos, htp⟩
 
+/-! ### `base.round_price`: the limit a strategy gives is moved DOWN to the tick grid, never up -/
+
+/-- rounding never raises the limit: a BUY never pays more than the strategy allowed -/
+theorem roundPrice_never_raises (l t : Nat) : roundPrice l t ≤ l := by
+  unfold roundPrice
+  split
+  · exact Nat.le_refl l
+  · exact Nat.div_mul_le_self l t
+
+/-- ... and moves it by less than one tick -/
+theorem roundPrice_within_a_tick (l t : Nat) (ht : 0 < t) : l < roundPrice l t + t := by
+  unfold roundPrice
+  rw [if_neg (by omega)]
+  exact Nat.lt_div_mul_add ht
+
+/-- the result lies on the tick grid -/
+theorem roundPrice_on_grid (l t : Nat) (ht : 0 < t) : t ∣ roundPrice l t := by
+  unfold roundPrice
+  rw [if_neg (by omega)]
+  exact Nat.dvd_mul_left t (l / t)
+
+/-- a limit on the grid is left alone -/
+theorem roundPrice_fixes_grid (l t : Nat) (h : t ∣ l) : roundPrice l t = l := by
+  unfold roundPrice
+  split
+  · rfl
+  · exact Nat.div_mul_cancel h
+
+/-- it is the HIGHEST grid price not above the limit (round-half-even would give a higher one in the upper half of a tick) -/
+theorem roundPrice_is_greatest (l t g : Nat) (ht : 0 < t) (hg : t ∣ g) (hle : g ≤ l) : g ≤ roundPrice l t := by
+  unfold roundPrice
+  rw [if_neg (by omega)]
+  obtain ⟨k, rfl⟩ := hg
+  have hk : k ≤ l / t := (Nat.le_div_iff_mul_le ht).mpr (by rw [Nat.mul_comm]; exact hle)
+  calc t * k = k * t := Nat.mul_comm t k
+    _ ≤ l / t * t := Nat.mul_le_mul_right t hk
+
+example : roundPrice 100060 100 = 100000 ∧ roundPrice 30006000 10000 = 30000000 ∧ roundPrice 100100 100 = 100100 := by decide
+
 end RQ.Props.C05
